@@ -161,7 +161,12 @@ func checkText(run *core.Run, text string, want map[string]any, slot string, exp
 		}
 		// the signature keeps the operators involved and the last field of the differing path
 		parts := strings.Split(path, ".")
-		run.Violate(core.Violation{Sig: "tree-differs|" + desc + "|" + parts[len(parts)-1], Clause: "operators bind by standard precedence and associate to the left; every clause, modifier, alias, name and literal written appears with its written value and nothing unwritten appears",
+		// statement forms are named in the signature (expression cases by their operators)
+		who := desc
+		if who == "" && strings.HasPrefix(slot, "statement:") && slot != "statement:select" {
+			who = "stmt:" + strings.TrimPrefix(slot, "statement:")
+		}
+		run.Violate(core.Violation{Sig: "tree-differs|" + who + "|" + parts[len(parts)-1], Clause: "operators bind by standard precedence and associate to the left; every clause, modifier, alias, name and literal written appears with its written value and nothing unwritten appears",
 			Case: map[string]any{"text": text, "slot": slot, "want": want}, Observe: map[string]any{"diff": d, "got": got}})
 	}
 }
